@@ -539,9 +539,9 @@ func init() {
 	n := len(corsConfigs())
 	cases := func(t string) int {
 		if t == "thorough" {
-			return n * 40
+			return n * 400
 		}
-		return n * 4
+		return n * 8
 	}
 	rule := "the class product is enumerated completely: " + fmt.Sprint(n) + " configuration classes (origins none/any/one/several/any+others x allowed headers none/any/list/mixed-case unsorted list x exposed x max-age 0/-1/n x credentials, minus the rejected '*'+credentials) x 4860 request classes (6 methods x 3 paths x 6 origin classes x 5 Access-Control-Request-Method classes x 9 Access-Control-Request-Headers classes derived from the configured list: as configured, lower/upper case, spaced lists, one disallowed, proper prefix / extension of an allowed name, empty element); first pass canonical strings, further passes random instantiations; " +
 		"non-trivial (distinct) = every (configuration class, request class, concrete strings) triple"
